@@ -80,60 +80,82 @@ impl core::ops::Index<core::ops::RangeTo<usize>> for Bytes {
 }
 
 impl BytesMut {
+  // ghost history of this buffer object: every byte ever removed from its front (advance / split_to / split / get_* / clear), in order.
+  // stream() = taken() ++ view = everything that was ever appended to this buffer, in order: removing from the front keeps it,
+  // appending extends it, and REPLACING the buffer object by a fresh one loses it (taken() of a fresh buffer is empty).
+  pub uninterp spec fn taken(&self) -> Seq<u8>;
+  pub open spec fn stream(&self) -> Seq<u8> { self.taken() + self@ }
   #[verifier::external_body]
-  pub fn new() -> (r: BytesMut) ensures r@ =~= Seq::<u8>::empty() { unimplemented!() }
+  pub fn new() -> (r: BytesMut) ensures r@ =~= Seq::<u8>::empty(), r.taken() =~= Seq::<u8>::empty() { unimplemented!() }
   #[verifier::external_body]
-  pub fn with_capacity(cap: usize) -> (r: BytesMut) ensures r@ =~= Seq::<u8>::empty() { unimplemented!() }
+  pub fn with_capacity(cap: usize) -> (r: BytesMut) ensures r@ =~= Seq::<u8>::empty(), r.taken() =~= Seq::<u8>::empty() { unimplemented!() }
   #[verifier::external_body]
   pub fn len(&self) -> (r: usize) ensures r == self@.len() { unimplemented!() }
   #[verifier::external_body]
   pub fn is_empty(&self) -> (r: bool) ensures r == (self@.len() == 0) { unimplemented!() }
   #[verifier::external_body]
-  pub fn clear(&mut self) ensures final(self)@ =~= Seq::<u8>::empty() { unimplemented!() }
+  pub fn clear(&mut self) ensures final(self)@ =~= Seq::<u8>::empty(), final(self).taken() == old(self).taken() + old(self)@ { unimplemented!() }
   // reserve: documented to panic only on capacity overflow of usize; not modelled (allocation failure is out of scope)
   #[verifier::external_body]
-  pub fn reserve(&mut self, additional: usize) ensures final(self)@ == old(self)@ { unimplemented!() }
+  pub fn reserve(&mut self, additional: usize) ensures final(self)@ == old(self)@, final(self).taken() == old(self).taken() { unimplemented!() }
   #[verifier::external_body]
   pub fn remaining_mut(&self) -> (r: usize) { unimplemented!() }
   #[verifier::external_body]
   pub fn split_to(&mut self, at: usize) -> (r: BytesMut)
     requires at <= old(self)@.len()
-    ensures r@ == old(self)@.subrange(0, at as int), final(self)@ == old(self)@.subrange(at as int, old(self)@.len() as int)
+    ensures r@ == old(self)@.subrange(0, at as int), final(self)@ == old(self)@.subrange(at as int, old(self)@.len() as int),
+      final(self).taken() == old(self).taken() + old(self)@.subrange(0, at as int)
   { unimplemented!() }
   #[verifier::external_body]
   pub fn split(&mut self) -> (r: BytesMut)
-    ensures r@ == old(self)@, final(self)@ =~= Seq::<u8>::empty()
+    ensures r@ == old(self)@, final(self)@ =~= Seq::<u8>::empty(), final(self).taken() == old(self).taken() + old(self)@
   { unimplemented!() }
   #[verifier::external_body]
   pub fn freeze(self) -> (r: Bytes) ensures r@ == self@ { unimplemented!() }
   #[verifier::external_body]
   pub fn advance(&mut self, cnt: usize)
     requires cnt <= old(self)@.len()
-    ensures final(self)@ == old(self)@.subrange(cnt as int, old(self)@.len() as int)
+    ensures final(self)@ == old(self)@.subrange(cnt as int, old(self)@.len() as int), final(self).taken() == old(self).taken() + old(self)@.subrange(0, cnt as int)
   { unimplemented!() }
   #[verifier::external_body]
   pub fn get_u8(&mut self) -> (r: u8)
     requires old(self)@.len() >= 1
-    ensures r == old(self)@[0], final(self)@ == old(self)@.subrange(1, old(self)@.len() as int)
+    ensures r == old(self)@[0], final(self)@ == old(self)@.subrange(1, old(self)@.len() as int), final(self).taken() == old(self).taken().push(old(self)@[0])
+  { unimplemented!() }
+  // Buf::get_u16 / get_u32 / get_u64 (big endian; panic when fewer bytes remain)
+  #[verifier::external_body]
+  pub fn get_u16(&mut self) -> (r: u16)
+    requires old(self)@.len() >= 2
+    ensures r as nat == be16(old(self)@.subrange(0, 2)), final(self)@ == old(self)@.subrange(2, old(self)@.len() as int), final(self).taken() == old(self).taken() + old(self)@.subrange(0, 2)
   { unimplemented!() }
   #[verifier::external_body]
-  pub fn put_u8(&mut self, n: u8) ensures final(self)@ == old(self)@.push(n) { unimplemented!() }
+  pub fn get_u32(&mut self) -> (r: u32)
+    requires old(self)@.len() >= 4
+    ensures final(self)@ == old(self)@.subrange(4, old(self)@.len() as int), final(self).taken() == old(self).taken() + old(self)@.subrange(0, 4)
+  { unimplemented!() }
   #[verifier::external_body]
-  pub fn put_u16(&mut self, n: u16) ensures final(self)@ == old(self)@ + to_be16(n as nat) { unimplemented!() }
+  pub fn get_u64(&mut self) -> (r: u64)
+    requires old(self)@.len() >= 8
+    ensures r as nat == be64(old(self)@.subrange(0, 8)), final(self)@ == old(self)@.subrange(8, old(self)@.len() as int), final(self).taken() == old(self).taken() + old(self)@.subrange(0, 8)
+  { unimplemented!() }
   #[verifier::external_body]
-  pub fn put_u32(&mut self, n: u32) ensures final(self)@ == old(self)@ + to_be32(n as nat) { unimplemented!() }
+  pub fn put_u8(&mut self, n: u8) ensures final(self)@ == old(self)@.push(n), final(self).taken() == old(self).taken() { unimplemented!() }
   #[verifier::external_body]
-  pub fn put_u64(&mut self, n: u64) ensures final(self)@ == old(self)@ + to_be64(n as nat) { unimplemented!() }
+  pub fn put_u16(&mut self, n: u16) ensures final(self)@ == old(self)@ + to_be16(n as nat), final(self).taken() == old(self).taken() { unimplemented!() }
   #[verifier::external_body]
-  pub fn put_slice(&mut self, src: &[u8]) ensures final(self)@ == old(self)@ + src@ { unimplemented!() }
+  pub fn put_u32(&mut self, n: u32) ensures final(self)@ == old(self)@ + to_be32(n as nat), final(self).taken() == old(self).taken() { unimplemented!() }
+  #[verifier::external_body]
+  pub fn put_u64(&mut self, n: u64) ensures final(self)@ == old(self)@ + to_be64(n as nat), final(self).taken() == old(self).taken() { unimplemented!() }
+  #[verifier::external_body]
+  pub fn put_slice(&mut self, src: &[u8]) ensures final(self)@ == old(self)@ + src@, final(self).taken() == old(self).taken() { unimplemented!() }
   // BufMut::put_bytes(val, cnt): cnt copies of val
   #[verifier::external_body]
-  pub fn put_bytes(&mut self, val: u8, cnt: usize) ensures final(self)@ == old(self)@ + Seq::new(cnt as nat, |i: int| val) { unimplemented!() }
+  pub fn put_bytes(&mut self, val: u8, cnt: usize) ensures final(self)@ == old(self)@ + Seq::new(cnt as nat, |i: int| val), final(self).taken() == old(self).taken() { unimplemented!() }
   #[verifier::external_body]
-  pub fn extend_from_slice(&mut self, src: &[u8]) ensures final(self)@ == old(self)@ + src@ { unimplemented!() }
+  pub fn extend_from_slice(&mut self, src: &[u8]) ensures final(self)@ == old(self)@ + src@, final(self).taken() == old(self).taken() { unimplemented!() }
   // BufMut::put(impl Buf): appends all remaining bytes of the source
   #[verifier::external_body]
-  pub fn put(&mut self, src: BytesMut) ensures final(self)@ == old(self)@ + src@ { unimplemented!() }
+  pub fn put(&mut self, src: BytesMut) ensures final(self)@ == old(self)@ + src@, final(self).taken() == old(self).taken() { unimplemented!() }
   #[verifier::external_body]
   pub fn as_slice(&self) -> (r: &[u8]) ensures r@ == self@, r@.len() <= isize::MAX { unimplemented!() }
   // R6: `&buf[..n]`
